@@ -81,6 +81,20 @@ def probes(st, EC, sc, exp, tag):
     add("rename_var", EC["EPERM"] if RO else 0, v=1, name="s:w1")
     add("rename_dim", EC["EPERM"] if RO else 0, d=1, name="s:x2")
     add("rename_dim", EC["EPERM"] if RO else 0, d=1, name="s:x1")
+    # a LONGER name needs define mode; in data mode the call is rejected and must leave no trace (the by-name inquiries of
+    # the sweeps and the name-table invariants of the walker look at what it left behind)
+    lw = {EC["EPERM"]} if RO else (0 if D else EC["ENOTINDEFINE"])
+    add("rename_dim", lw, d=1, name="s:x1_much_longer")
+    if lw == 0:
+        add("rename_dim", 0, d=1, name="s:x1")
+    add("rename_var", lw, v=1, name="s:w1_much_longer")
+    if lw == 0:
+        add("rename_var", 0, v=1, name="s:w1")
+    add("rename_att", lw, v=-1, name="s:title", newname="s:title_much_longer")
+    if lw == 0:
+        add("rename_att", 0, v=-1, name="s:title_much_longer", newname="s:title")
+    add("inq", 0, what="dimid", name="s:x1")
+    add("inq", 0, what="varid", name="s:w1")
     add("get_att", 0, v=-1, name="s:title", mt="text", nbytes=5)
     # --- blocking data access
     pw = lambda ok_mode, wrong: EC["EPERM"] if RO else (EC["EINDEFINE"] if D else (0 if ok_mode else wrong))
